@@ -126,6 +126,9 @@ func(_aes_cbc_enc_256_x4)
 	endbranch
 	FUNC_SAVE
 
+	test	LEN, LEN	; an empty message: nothing to read or write
+	jz	done
+
 	mov	IDX, 0
 
 	FILL_KEY_CACHE	 CKEY_CNT, FIRST_CKEY, KEYS, MOVDQ
